@@ -135,6 +135,7 @@ func genGrp(r *Rng, tier string) *Enc {
 	agg("count", pickCols(), g.Count)
 	agg("sum", nil, g.Sum)
 	agg("mean", nil, g.Mean)
+	agg("count", nil, g.Count)
 	// frame-level Sum for the conservation law
 	e.Tok("FS")
 	var tot map[string]float64
@@ -179,6 +180,16 @@ func genGrp(r *Rng, tier string) *Enc {
 		}
 	} else {
 		e.Tok("skip")
+	}
+	// KeyOrder must still name every group once after a returned aggregate was edited in place
+	e.Tok("KO2")
+	if status == "ok" {
+		e.Int(len(g.KeyOrder))
+		for _, k := range g.KeyOrder {
+			e.Cell(k)
+		}
+	} else {
+		e.Int(0)
 	}
 	// (b) grouping again after an in-place edit of the frame must see the edit (no stale partition)
 	e.Tok("REGROUP")
